@@ -83,6 +83,20 @@ CLAIMS = {
              "sample under SONIC_USE_OPTDEC and SONIC_ENCODER_USE_VM",
         engine="session",
     ),
+    "C06": dict(
+        category="model_checking",
+        technique="TLA+ model of buffer ownership (Pool: pooled buffers, growth, post-processing swap, copy-out rule) checked by TLC for every "
+                  "choice sync.Pool can make; all generated call histories replayed with byte-level checks (earlier results unchanged, "
+                  "scribbling over owned results harmless), guard-page EncodeInto for every capacity, decode-side input overwrite",
+        text="TLC checks that no buffer held by the caller is ever in the pool and results are distinct arrays; the harness replays every "
+             "history on the real entry points with LimitBufferSize scaled down, compares each result with encoding/json and all earlier "
+             "results with private copies, writes into buffers ending at a PROT_NONE page, and re-reads decoded values after overwriting "
+             "the input.",
+        design_ref="DESIGN.md section 4 C06, section 11",
+        note="limits scaled through the public option variables; single P and GC off for deterministic reuse; memory effects visible only "
+             "through changed bytes or faults; encoding/json trusted for expected bytes",
+        engine="pool",
+    ),
 }
 
 NOT_YET = "not yet claimed: check under construction (build phase), see DESIGN.md section 8"
